@@ -346,6 +346,9 @@ impl<'a, F: IVP> SolOut for DefaultSolOut<'a, F> {
                             if self.t_eval.is_some() || self.t.last() != Some(&event_t) {
                                 self.t.push(event_t);
                                 self.y.push(event_y);
+                            } else if let Some(last_y) = self.y.last_mut() {
+                                // same time: the final sample is the event point itself
+                                *last_y = event_y;
                             }
                             
                             // Update prev_event before returning
